@@ -876,6 +876,16 @@ func (e *Env) evalCall(x ECall) (tval, error) {
 		}
 		return tval{T: boolT, C: []string{sEq(v.C[0], sInt(int64(tag)))}}, nil
 	}
+	if strings.HasPrefix(x.Fun, "old_") {
+		if gs, isGhost := e.fr.eng.cs.Ghosts[x.Fun[4:]]; isGhost {
+			// old_<ghost>(obj, idx): object and index evaluated now, ghost state read in the pre-state
+			key, idx, srt, rt, err := e.ghostLoc(ECall{Fun: x.Fun[4:], Args: x.Args}, gs)
+			if err != nil {
+				return tval{}, err
+			}
+			return tval{T: rt, C: []string{e.vc().loadComp(e.old, srt, key, idx)}}, nil
+		}
+	}
 	if gs, isGhost := e.fr.eng.cs.Ghosts[x.Fun]; isGhost {
 		key, idx, srt, rt, err := e.ghostLoc(x, gs)
 		if err != nil {
